@@ -13,9 +13,9 @@ SPEC = dict(
              dict(name="caseinv-cli", shards=T(16, 16), timeout=T(900, 3600), needs_wtf=True)],
     rule="case = (database, query, re-spelt query, options); non-trivial = the answer to the query is non-empty; distinct by (db, query, variant, options). "
          "CLI: (db, query, variant, limit) with a non-empty result block.",
-    floors=T({"pairs-lexical": 1000, "pairs-nlp": 1000, "pairs-fuzzy": 300, "cached-variant-hit": 500, "cli-pairs-nonempty": 60, "cli-pairs-blanks": 25, "cli-pipeline-pairs-nonempty": 60, "cli-pipeline-misspelt-queries": 120, "cli-homes-with-a-special-casing-locale": 8, "nlp-vocabulary-sweep": 3000, "databases-with-a-cased-embedding-vocabulary": 15, "cli-homes-inside-a-project-with-capitalised-targets": 8,
+    floors=T({"pairs-lexical": 1000, "pairs-nlp": 1000, "pairs-fuzzy": 300, "cached-variant-hit": 500, "cli-pairs-nonempty": 60, "cli-pairs-blanks": 25, "cli-pipeline-pairs-nonempty": 60, "cli-pipeline-misspelt-queries": 120, "cli-queries-wrapped-in-quote-characters": 50, "cli-homes-with-a-special-casing-locale": 8, "nlp-vocabulary-sweep": 3000, "databases-with-a-cased-embedding-vocabulary": 15, "cli-homes-inside-a-project-with-capitalised-targets": 8,
               "distinct_nontrivial": 3000},
-             {"pairs-lexical": 10000, "pairs-nlp": 10000, "pairs-fuzzy": 3000, "cached-variant-hit": 5000, "cli-pairs-nonempty": 600, "cli-pairs-blanks": 250, "cli-pipeline-pairs-nonempty": 1500, "cli-pipeline-misspelt-queries": 3000, "cli-homes-with-a-special-casing-locale": 250, "nlp-vocabulary-sweep": 3000, "databases-with-a-cased-embedding-vocabulary": 800, "cli-homes-inside-a-project-with-capitalised-targets": 250,
+             {"pairs-lexical": 10000, "pairs-nlp": 10000, "pairs-fuzzy": 3000, "cached-variant-hit": 5000, "cli-pairs-nonempty": 600, "cli-pairs-blanks": 250, "cli-pipeline-pairs-nonempty": 1500, "cli-pipeline-misspelt-queries": 3000, "cli-queries-wrapped-in-quote-characters": 1500, "cli-homes-with-a-special-casing-locale": 250, "nlp-vocabulary-sweep": 3000, "databases-with-a-cased-embedding-vocabulary": 800, "cli-homes-inside-a-project-with-capitalised-targets": 250,
               "distinct_nontrivial": 30000}),
     assumptions=["CLI comparison is on the parsed result block (entry + score with -v); the 'Searching for:' echo legitimately differs in case",
                  "the binary runs under the locale variables a shell may export (C, en_US, de_DE, el_GR and the special-casing tr_TR, az_AZ, lt_LT), the same for both spellings of a pair",
